@@ -299,6 +299,7 @@ def _s3(ctx, adv, fwd, sl, rel):
                            f"`{u(c_)[:120]}` pads the prefix relation with something other than False", rel, n.lineno, sample=u(c_)[:120])
     col.floor("advance_mass_pad_sites", n_mass, 2)
     _dead_sources_excluded_from_merges(ctx, adv, rel)
+    _search_table(ctx, adv, rel)
     # case splits over one per-path predicate: in `p | (~p' & q)` (k is unextended, or it is extended and its new label matches)
     # p and p' are the same vector and must be laid along the same axis of the (k, k') relation - viewed along different axes
     # the two arms talk about different paths
@@ -725,6 +726,126 @@ def _beam_filled_when_no_frame_was_processed(ctx: Ctx, fwd, rel: str, where_f: s
             f"with width={bad[3]}; the beam then has {1 if bad[2] == 0 else bad[3]} slot(s), so the fill-up to `width` slots must "
             f"{'run' if not bad[4] else 'not run'}: the result has the wrong number of slots (an all-empty padded batch returns a single slot "
             f"instead of `width`)") if bad else "", rel, bad[0].lineno if bad else loop.lineno, sample=dict(tests=len(tests)))
+
+
+def _search_table(ctx: Ctx, adv, rel: str):
+    """S9 by value: `ctc_prefix_search_advance` is interpreted over exact values (sa/interp.py + sa/teval.py; nothing is run) and driven
+    frame by frame from the single empty prefix, the way the documented loop drives it without a language model (extension scores = the
+    frame's label probabilities for every slot). Beams are wider than the number of reachable prefixes (so nothing is pruned, and the
+    'beam wider than the candidates' padding runs in the first frames), vocabularies of 1 and 2 labels plus blank, 1-3 frames, generic
+    rational frame probabilities (no ties among positive masses; candidates without mass tie-break by index - they carry no prefix), one
+    and two batch elements. After the last frame, per element: the slots with positive mass hold DISTINCT label sequences, exactly the
+    sequences some alignment collapses to, each with the exact total probability of its alignments (brute-force enumeration), in order
+    of non-increasing mass, and every other slot carries 0 or -inf (never NaN) behind them. False when outside the interpreted fragment."""
+    import itertools
+    import math
+    import numpy as np
+    from fractions import Fraction as Fr
+    import sa.teval as TE
+    from sa.interp import Interp
+    from sa.inteval import NotEvaluable
+    from sa.teval import frac_array
+    col = ctx.col
+    names = [p_.name for p_ in adv.params]
+    if len(names) != 7:
+        return False
+
+    def frame_probs(T, V, seed):
+        pr = [2, 3, 5, 7, 11, 13, 17, 19, 23, 29, 31, 37, 41, 43, 47]
+        out = []
+        for t in range(T):
+            w = [pr[(seed + 3 * t + 5 * v) % len(pr)] + t for v in range(V + 1)]
+            out.append([Fr(x, sum(w)) for x in w])
+        return out
+
+    def brute(probs):
+        T, V = len(probs), len(probs[0]) - 1
+        out = {}
+        for path in itertools.product(range(V + 1), repeat=T):
+            p = Fr(1)
+            for t, s_ in enumerate(path):
+                p *= probs[t][s_]
+            seq, prev = [], None
+            for s_ in path:
+                if s_ != prev and s_ != V:
+                    seq.append(s_)
+                prev = s_
+            out[tuple(seq)] = out.get(tuple(seq), 0) + p
+        return out
+
+    def search(batch, width):
+        N, T, V = len(batch), len(batch[0]), len(batch[0][0]) - 1
+        y = np.empty((0, N, 1), dtype=object)
+        last, lens = frac_array([[0]] * N), frac_array([[0]] * N)
+        nb, b = frac_array([[0]] * N), frac_array([[1]] * N)
+        isp = np.ones((N, 1, 1), dtype=bool)
+        for t in range(T):
+            Kp = lens.shape[1]
+            nonext = frac_array([batch[n][t][:V] for n in range(N)])
+            blank = frac_array([batch[n][t][V] for n in range(N)])
+            ext = np.broadcast_to(nonext[:, None, :], (N, Kp, V)).copy()
+            holder = {}
+
+            def leaf(x, env):
+                if isinstance(x, ast.Call) and call_name(x) == "trunc_divide" and len(x.args) == 2:
+                    a_, d_ = holder["it"].eval(x.args[0], env), holder["it"].eval(x.args[1], env)
+                    return np.vectorize(lambda v_: Fr(int(v_) // int(d_)) if v_ >= 0 else Fr(-((-int(v_)) // int(d_))), otypes=[object])(a_)
+                return None
+            it = Interp(leaf=leaf, tensors=True)
+            holder["it"] = it
+            kind, got = it.run(adv.node, dict(zip(names, ((ext, nonext, blank), width, (nb, b), y, last, lens, isp))))
+            if kind != "return" or not isinstance(got, tuple) or len(got) != 7:
+                return f"frame {t}: {kind} {str(got)[:80]}"
+            y, last, lens, (nb, b), isp = got[0], got[1], got[2], got[3], got[4]
+        return y, lens, nb, b
+    bad, rows = None, 0
+    old = TE.TIE_BREAK_BY_INDEX_AT_OR_BELOW
+    TE.TIE_BREAK_BY_INDEX_AT_OR_BELOW = 0
+    try:
+        for V, T, width, seeds in ((1, 1, 3, (1,)), (1, 3, 6, (1, 4)), (2, 1, 5, (2,)), (2, 2, 10, (1, 2)), (2, 3, 17, (1, 3)), (2, 3, 12, (5,)), (2, 2, 6, (7,))):
+            batch = [frame_probs(T, V, s_) for s_ in seeds]
+            res = search(batch, width)
+            rows += 1
+            if isinstance(res, str):
+                bad = bad or (V, T, width, 0, res, None)
+                continue
+            y, lens, nb, b = res
+            for n, probs in enumerate(batch):
+                want = {k: v for k, v in brute(probs).items() if v > 0}
+                got, problem, seen_dead, prev_m = {}, None, False, None
+                for k in range(lens.shape[1]):
+                    m = nb[n, k] + b[n, k]
+                    if m != m:
+                        problem = problem or f"slot {k} carries NaN"
+                        continue
+                    if m > 0:
+                        seq = tuple(int(y[i, n, k]) for i in range(int(lens[n, k])))
+                        if seen_dead:
+                            problem = problem or f"the prefix {seq} with mass {m} sits behind a slot without mass"
+                        if prev_m is not None and m > prev_m:
+                            problem = problem or f"the masses are not in non-increasing order at slot {k}"
+                        prev_m = m
+                        if seq in got:
+                            problem = problem or f"the prefix {seq} is returned twice with positive mass"
+                        got[seq] = m
+                    else:
+                        seen_dead = True
+                        if m != 0 and m != -math.inf:
+                            problem = problem or f"slot {k} carries the mass {m}"
+                if problem is None and got != want:
+                    diff = [k for k in sorted(set(got) | set(want)) if got.get(k) != want.get(k)][:3]
+                    problem = "; ".join(f"prefix {k}: reported {got.get(k, 'absent')}, total probability of its alignments {want.get(k, 'none - no alignment collapses to it')}" for k in diff)
+                if problem and bad is None:
+                    bad = (V, T, width, n, problem, [[str(p_) for p_ in fr_] for fr_ in probs])
+    except NotEvaluable:
+        return False
+    finally:
+        TE.TIE_BREAK_BY_INDEX_AT_OR_BELOW = old
+    col.count("prefix_search_table_rows", rows)
+    col.ob("G12", "S9", f"{rel}::ctc_prefix_search_advance::prefix-mass-table", bad is None,
+           (f"{bad[0]} label(s) plus blank, {bad[1]} frame(s), width {bad[2]} (nothing is pruned), batch element {bad[3]}, frame probabilities {bad[5]}: {bad[4]}") if bad else "",
+           rel, adv.line, sample=dict(rows=rows))
+    return True
 
 
 def _mutants():
